@@ -74,6 +74,7 @@ def run_case(c):
         p[1, m - 2] = 2.0
         p[n - 1, 0] = 0.5
         p[2, 1] = 1.25
+        p /= p.sum()  # unit total: this space is about the object's memory, not about the normalisation (a separate, listed finding)
         p64 = p.astype(np.float64)
         want1 = ((p64 * kx[:, None]).sum() + 1j * (p64 * ky[None]).sum()) / p64.sum()
         REQ = {
